@@ -120,3 +120,73 @@ func runCosetErrors() {
 		})
 	flush(classCount(all))
 }
+
+// runFullCapacityShapes: exactly t = floor(ec/2) damaged codewords per block - the full capacity -
+// whose damage values are solved so that the two highest syndromes (and, second variant, the
+// highest and the third) vanish: the stop rule of the Euclidean run is decided by degrees that are
+// then two lower than usual, at the very limit of what may be corrected. t-2 values are fixed, the
+// last two solved in the symbol's field. Position families first / last / spread, all blocks at once.
+func runFullCapacityShapes() {
+	all := append(mainQR(), dmSyms...)
+	chk.Range(fmt.Sprintf("t = floor(ec/2) errors per block (full capacity) with damage values solved so that two chosen high syndromes vanish ({top, top-1}, {top, top-2}); position families {first, last, spread}; every block simultaneously; %d symbols", len(all)), len(all),
+		func(i int) string { return all[i].name() },
+		func(l *mc.Local, i int) {
+			s := all[i]
+			F, base := gf.Field{Poly: 0x11D, Size: 256}, 0
+			if s.Kind == "dm" {
+				F, base = gf.Field{Poly: 0x12D, Size: 256}, 1
+			}
+			r, t := s.ec, s.t()
+			if t < 3 {
+				return
+			}
+			for vi, rows := range [][2]int{{r - 1, r - 2}, {r - 1, r - 3}} {
+				for fi, fam := range []string{"first", "last", "spread"} {
+					ft := &fault{}
+					usable := true
+					for b, ps := range s.blocks {
+						n := len(ps)
+						pos := family(fam, n, s.dataLen[b], t)
+						if len(pos) != t {
+							usable = false
+							break
+						}
+						loc := make([]int, t)
+						for q, p := range pos {
+							loc[q] = F.Pow(gf.Alpha, n-1-p)
+						}
+						mag := make([]int, t)
+						for q := 0; q < t-2; q++ {
+							mag[q] = 1 + (q*37+b*11+fi*5)%255
+						}
+						A := [][]int{{0, 0}, {0, 0}}
+						rhs := []int{0, 0}
+						for e, row := range rows {
+							for q := 0; q < t-2; q++ {
+								rhs[e] ^= F.Mul(mag[q], F.Pow(loc[q], row+base))
+							}
+							A[e][0] = F.Pow(loc[t-2], row+base)
+							A[e][1] = F.Pow(loc[t-1], row+base)
+						}
+						x, ok := F.Solve(A, rhs)
+						if !ok || x[0] == 0 || x[1] == 0 {
+							usable = false
+							break
+						}
+						mag[t-2], mag[t-1] = x[0], x[1]
+						for q, idx := range pos {
+							ft.CW = append(ft.CW, ps[idx])
+							ft.XOR = append(ft.XOR, mag[q])
+						}
+					}
+					if !usable {
+						l.Count("full_capacity_shapes_unusable", 1)
+						continue
+					}
+					l.Count("full_capacity_shape_cases", 1)
+					try(l, s, ft, s.Kind+"/full-capacity-shapes", "C05/"+s.Kind+"/%sfull-capacity-shapes/"+fam, "exact", int64(vi*8+fi))
+				}
+			}
+		})
+	flush(classCount(all))
+}
